@@ -214,6 +214,14 @@ fn apply_edits(name: &str, edits: &[Edit]) -> (BytesStart<'static>, String, Vec<
                 e.push_attribute((k.as_str(), v.as_str()));
                 attrs.push((k.clone(), v.clone()));
             }
+            Edit::PushOwned(k, v) => {
+                e.push_attribute((k.as_str(), std::borrow::Cow::<str>::Owned(v.clone())));
+                attrs.push((k.clone(), v.clone()));
+            }
+            Edit::PushCowBorrowed(k, v) => {
+                e.push_attribute((k.as_str(), std::borrow::Cow::<str>::Borrowed(v.as_str())));
+                attrs.push((k.clone(), v.clone()));
+            }
             Edit::Extend(kv) => {
                 e.extend_attributes(kv.iter().map(|(k, v)| (k.as_str(), v.as_str())));
                 attrs.extend(kv.iter().cloned());
@@ -483,9 +491,17 @@ fn gen_build(rng: &mut Rng, open: &mut Vec<String>) -> Build {
             let mut edits = vec![];
             for _ in 0..rng.below(4) {
                 edits.push(match rng.below(8) {
-                    0..=3 => {
+                    0 | 1 => {
                         let (k, v) = kv(rng);
                         Edit::Push(k, v)
+                    }
+                    2 => {
+                        let (k, v) = kv(rng);
+                        Edit::PushOwned(k, v)
+                    }
+                    3 => {
+                        let (k, v) = kv(rng);
+                        Edit::PushCowBorrowed(k, v)
                     }
                     4 => Edit::Extend((0..rng.below(3)).map(|_| kv(rng)).collect()),
                     5 => Edit::With((0..rng.below(3)).map(|_| kv(rng)).collect()),
